@@ -97,6 +97,39 @@ func (f *frame) callCommon(c *ssa.CallCommon, in ssa.Instruction, st *bstate, re
 	lvs := f.lvArgs(c)
 	args := f.callArgs(c)
 
+	// receivers of repo methods are assumed non-nil inside the method: check
+	// that assumption at every static call
+	if fn := c.StaticCallee(); fn != nil && fn.Pkg != nil && f.eng().isRepoPkg(fn.Pkg.Pkg) && fn.Signature.Recv() != nil && len(c.Args) > 0 {
+		if _, isPtr := fn.Signature.Recv().Type().Underlying().(*types.Pointer); isPtr {
+			if _, isLV := f.lvs[c.Args[0]]; !isLV && f.methodDerefsRecv(fn) {
+				f.nilCheck(st, c.Args[0], &LV{ref: args[0].T}, in.Pos())
+			}
+		}
+	}
+	// object invariants are assumed by repo callees for their pointer
+	// parameters: check them at every static call
+	if fn := c.StaticCallee(); fn != nil && fn.Pkg != nil && f.eng().isRepoPkg(fn.Pkg.Pkg) && len(f.eng().typeInvs) > 0 {
+		for i, a := range c.Args {
+			if i >= len(args) {
+				break
+			}
+			if _, isPtr := a.Type().Underlying().(*types.Pointer); !isPtr {
+				continue
+			}
+			if _, isLV := f.lvs[a]; isLV {
+				continue
+			}
+			// only objects this function owns or received as parameters: other
+			// pointers (loaded from the heap, returned by calls) denote objects at
+			// rest, for which the invariant is assumed
+			if _, isParam := a.(*ssa.Parameter); !isParam || !f.top {
+				continue
+			}
+			for k, fact := range f.ptrInvsOf(args[i], st, true) {
+				f.oblige(st, "typeinv-at-call", fmt.Sprintf("%s:arg%d:%s", label, i, k), implies("(not (= "+args[i].T+" 0))", fact), in.Pos())
+			}
+		}
+	}
 	cs := f.callsite(name, ord)
 	if cs != nil {
 		f.callsiteBefore(cs, c, args, st, label, in)
@@ -151,6 +184,22 @@ func (f *frame) callCommon(c *ssa.CallCommon, in ssa.Instruction, st *bstate, re
 			vc.note("assumed pure (no writes to verified state): " + name)
 		} else if !framed {
 			vc.note("havoc: call to " + name + " without contract")
+		}
+	}
+	if fn := c.StaticCallee(); fn != nil && fn.Pkg != nil && f.eng().isRepoPkg(fn.Pkg.Pkg) && len(f.eng().typeInvs) > 0 {
+		rs := res.Tuple
+		if len(rs) == 0 && res.S != "" {
+			rs = []TV{res}
+		}
+		for _, r := range rs {
+			if r.Ty == nil {
+				continue
+			}
+			if _, isPtr := r.Ty.Underlying().(*types.Pointer); isPtr {
+				for _, fact := range f.ptrInvsOf(r, st, true) {
+					f.assume(st, implies("(not (= "+r.T+" 0))", fact))
+				}
+			}
 		}
 	}
 	if cs != nil {
@@ -694,6 +743,8 @@ func (f *frame) runDefers(st *bstate) {
 		branch.alive = vc.define("a", "Bool", and(st.alive, armed))
 		if b, ok := c.Value.(*ssa.Builtin); ok {
 			f.builtin(b, c, d.instr, branch)
+		} else if mc, ok := c.Value.(*ssa.MakeClosure); ok && f.canInlineClosure(mc) {
+			f.inlineClosure(mc, d.args, branch, "defer "+name)
 		} else if fc, pkg, pn, rn := f.eng().contractFor(c); fc != nil {
 			f.applyContract(fc, pkg, pn, rn, c.Signature(), d.args, branch, "defer "+name, c.Signature().Results(), d.instr)
 		} else if f.isPureCallee(c) {
@@ -725,6 +776,10 @@ func (f *frame) callsite(name string, ord int) *CallsiteC {
 	}
 	for _, cs := range f.contract.Callsites {
 		if cs.Ord == ord && matchCallee(cs.Callee, name) {
+			if f.csUsed == nil {
+				f.csUsed = map[*CallsiteC]bool{}
+			}
+			f.csUsed[cs] = true
 			return cs
 		}
 	}
@@ -735,8 +790,9 @@ func matchCallee(pat, name string) bool {
 	if pat == name {
 		return true
 	}
-	// allow short forms: last path element
-	return shortName(pat) == shortName(name) || strings.HasSuffix(name, "."+pat) || strings.HasSuffix(name, "/"+pat)
+	// normalise: drop receiver parentheses/stars and the import path
+	p, n := shortName(pat), shortName(name)
+	return p == n || strings.HasSuffix(n, "."+p)
 }
 
 func (f *frame) callEnv(c *ssa.CallCommon, args []TV, st *bstate) *Env {
@@ -843,4 +899,138 @@ func (f *frame) pkgTypes() *types.Package {
 		}
 	}
 	return nil
+}
+
+// methodDerefsRecv: does the method touch its receiver's fields at all? (a nil
+// receiver is legal for methods that never dereference it)
+func (f *frame) methodDerefsRecv(fn *ssa.Function) bool {
+	if len(fn.Params) == 0 || fn.Blocks == nil {
+		return true
+	}
+	recv := fn.Params[0]
+	refs := recv.Referrers()
+	if refs == nil {
+		return true
+	}
+	for _, r := range *refs {
+		switch x := r.(type) {
+		case *ssa.DebugRef:
+		case *ssa.BinOp:
+			// comparison with nil
+		case *ssa.Call:
+			// passed on as the receiver of another repo method that does not
+			// dereference it either
+			if callee := x.Call.StaticCallee(); callee != nil && len(x.Call.Args) > 0 && x.Call.Args[0] == ssa.Value(recv) && callee != fn && callee.Signature.Recv() != nil && callee.Pkg != nil && f.eng().isRepoPkg(callee.Pkg.Pkg) {
+				onlyRecv := true
+				for _, a := range x.Call.Args[1:] {
+					if a == ssa.Value(recv) {
+						onlyRecv = false
+					}
+				}
+				if onlyRecv && !f.methodDerefsRecv(callee) {
+					continue
+				}
+			}
+			return true
+		case *ssa.FieldAddr, *ssa.UnOp, *ssa.Store:
+			// a dereference guarded by an explicit nil test at the top is common
+			// (if d == nil { return }): accept when the first instruction tests nil
+			_ = x
+			if guardedByNilTest(fn, recv) {
+				return false
+			}
+			return true
+		default:
+			return true
+		}
+	}
+	return false
+}
+
+// guardedByNilTest: the entry block ends in `if recv == nil` (either polarity).
+func guardedByNilTest(fn *ssa.Function, recv *ssa.Parameter) bool {
+	b := fn.Blocks[0]
+	if len(b.Instrs) == 0 {
+		return false
+	}
+	iff, ok := b.Instrs[len(b.Instrs)-1].(*ssa.If)
+	if !ok {
+		return false
+	}
+	bo, ok := iff.Cond.(*ssa.BinOp)
+	if !ok {
+		return false
+	}
+	isNil := func(v ssa.Value) bool {
+		c, ok := v.(*ssa.Const)
+		return ok && c.IsNil()
+	}
+	if !((bo.X == ssa.Value(recv) && isNil(bo.Y)) || (bo.Y == ssa.Value(recv) && isNil(bo.X))) {
+		return false
+	}
+	// no dereference of recv in the entry block itself
+	for _, in := range b.Instrs {
+		switch x := in.(type) {
+		case *ssa.FieldAddr:
+			if x.X == ssa.Value(recv) {
+				return false
+			}
+		case *ssa.UnOp:
+			if x.X == ssa.Value(recv) {
+				return false
+			}
+		}
+	}
+	return true
+}
+
+// canInlineClosure: deferred function literals that are loop-free and small
+// are executed in place (their captured variables are the caller's cells).
+func (f *frame) canInlineClosure(mc *ssa.MakeClosure) bool {
+	fn, ok := mc.Fn.(*ssa.Function)
+	if !ok || fn.Blocks == nil || f.depth >= 4 {
+		return false
+	}
+	n := 0
+	for _, b := range fn.Blocks {
+		for _, s := range b.Succs {
+			if s.Dominates(b) {
+				return false
+			}
+		}
+		for _, in := range b.Instrs {
+			n++
+			switch in.(type) {
+			case *ssa.Go, *ssa.Defer, *ssa.Select, *ssa.Send, *ssa.RunDefers, *ssa.MakeClosure:
+				return false
+			}
+		}
+	}
+	return n <= 80 && fn.Recover == nil
+}
+
+func (f *frame) inlineClosure(mc *ssa.MakeClosure, args []TV, st *bstate, label string) {
+	fn := mc.Fn.(*ssa.Function)
+	vc := f.vc
+	vc.nameCnt++
+	sub := &frame{vc: vc, fn: fn, id: fmt.Sprintf("%sc%d.", f.id, vc.nameCnt), namePfx: f.namePfx + "/in:" + fn.Name(),
+		vals: map[ssa.Value]TV{}, lvs: map[ssa.Value]*LV{}, depth: f.depth + 1, callOrd: map[string]int{}, caller: f, fvBind: map[*ssa.FreeVar]TV{}}
+	for i, fv := range fn.FreeVars {
+		if _, isLV := f.lvs[mc.Bindings[i]]; isLV {
+			unsup("closure captures an interior pointer")
+		}
+		sub.fvBind[fv] = f.val(mc.Bindings[i])
+	}
+	sub.run(st, args)
+	if len(sub.rets) == 0 {
+		st.alive = "false"
+		return
+	}
+	var ins []inEdge
+	for _, r := range sub.rets {
+		ins = append(ins, inEdge{cond: r.st.alive, st: r.st})
+	}
+	merged := sub.mergeStates(fn.Blocks[0], ins)
+	*st = *merged
+	f.locals = append(f.locals, sub.locals...)
 }
